@@ -107,6 +107,14 @@ def build_with_sharing(rng, p):
         ctx[pick(rng, ['duck', 'ip', 'k'])] = proto.DuckRule(pick(rng, [1, 'x', None, [1, 2]]))
         obj = Policy(obj.uid, effect=obj.effect, description=obj.description, context=ctx,
                      subjects=list(obj.subjects), resources=list(obj.resources), actions=list(obj.actions))
+    elif r < 0.6:
+        # context keys made of characters that look like the ones some stores reserve (FULLWIDTH FULL STOP, FULLWIDTH DOLLAR
+        # SIGN, a plain dollar sign inside the key): a key is text, it comes back code point by code point
+        ctx = dict(obj.context)
+        for key in rng.sample(['v\uff0e1', '\uff04set', 'a\uff0eb\uff0ec', 'x\uff04', '\uff0e', 'a$b', '\uff04\uff0e'], 2):
+            ctx[key] = Eq(pick(rng, [1, 'x']))
+        obj = Policy(obj.uid, effect=obj.effect, description=obj.description, context=ctx,
+                     subjects=list(obj.subjects), resources=list(obj.resources), actions=list(obj.actions))
     return obj
 
 
@@ -358,7 +366,7 @@ def run(ctx):
                 'and read back; uid, effect, description, type, context keys compared and the original and restored policy '
                 'asked the same 8 derived probes under all four checkers (per-field fits + context); plus generated JSON '
                 'documents with missing / extra / legacy fields decoded by Policy.from_json and by the model')
-    out.rule += '; a tenth of the policies carry a context restriction of a user class that has satisfied() but does not derive from Rule; a stream of policies with a definition field given as one bare string (its characters are the elements)'
+    out.rule += '; a tenth of the policies carry a context restriction of a user class that has satisfied() but does not derive from Rule; a stream of policies with a definition field given as one bare string (its characters are the elements); a twelfth of the policies have context keys containing U+FF0E / U+FF04 / an inner dollar sign'
     return out
 
 
